@@ -55,8 +55,15 @@ Record etables := {
   x_ftypes : list ftype;
   x_pnum : list (text * N); x_pdt : list (text * N);
   x_ploc : list (ftype * option text * text * (text * text * text));
+  x_seencmp : list (N * list N);                       (* date comparison k on last_seen_on: the instants satisfying it *)
   x_groups : list (option query)                        (* group g is the g-th entry; None = static *)
 }.
+
+Fixpoint lookupL (tbl : list (N * list N)) (k : N) : list N :=
+  match tbl with
+  | [] => []
+  | (k', v) :: rest => if N.eqb k' k then v else lookupL rest k
+  end.
 
 Definition group_query (x : etables) (g : N) : option query := nth (N.to_nat g) (x_groups x) None.
 
@@ -77,7 +84,8 @@ Definition mk_env (x : etables) : menv :=
      all_groups := seqN 0 (length (x_groups x));
      uses_query := fun g => match group_query x g with Some _ => true | None => false end;
      matches := fun g c => match group_query x g with
-                           | Some q => qeval (lookupN (x_scheme x)) (x_ftypes x) q c
+                           | Some q => qeval (lookupN (x_scheme x)) (x_ftypes x)
+                                             (fun k t => memN t (lookupL (x_seencmp x) k)) q c
                            | None => false
                            end |}.
 
